@@ -670,6 +670,9 @@ def handwritten():
     P.append((("loop", None, (("case", True, ((2, (lit("ab"), lit("bb")), (m1,)), (1, (re_("[ab]", "b"),), (m2, ("match", lit("c")))), (None, (lit("c"),), (("break", None),)))), ("hook", "h"))), ("match", lit("d"))))
     P.append((("case", True, ((3, (lit("aa"),), (m2,)), (2, (re_("a", "[ab]"),), (m1, ("match", lit("c")))), (None, ("else",), (m3,)))), ("hook", "h"), ("match", lit("d"))))
     P.append((("case", True, ((1, (lit("aa"),), (m2,)), (2, (re_("a", "[ab]"),), (m1, ("match", lit("c")))), (3, (lit("b"),), ()))), ("hook", "h"), ("match", lit("d"))))
+    # a loop around a greedy case with a clause that is a proper prefix of another one
+    P.append((("loop", None, (("case", True, ((None, (lit("a"),), (m1,)), (None, (lit("abc"),), (m2,)))),)),))
+    P.append((("loop", None, (("case", True, ((None, (lit("a"),), (m1,)), (None, (lit("abc"),), (m2,)), (None, (lit("d"),), (("break", None),)))), ("hook", "h"))), ("hook", "g"), ("match", lit("c"))))
     # ... and the same with the first observation only after the next match (a hook right after the case constrains scheduling)
     for k in range(len(P) - 6, len(P)):
         prog = P[k]
